@@ -584,6 +584,8 @@ func (e *Engine) applyContract(fr *Frame, st *State, con *Contract, sig *types.S
 	if con.Kind == "trusted func" || con.Kind == "interface" {
 		e.noteAssumption("assumed contract of " + con.Key + " (" + con.Kind + ")")
 	}
+	// vacuity guard: the assumed post-condition must be consistent with the path
+	e.addObl(st, fmt.Sprintf("%s/cover.call@%s#0", e.curFn, con.Key), "cover", nil, TFalse, "COVER: state after assuming the contract of "+con.Key+" is satisfiable", "")
 	return []Outcome{{st: st, results: res}}
 }
 
